@@ -47,17 +47,25 @@ def annotate(recs, fuel=20000, efuel=20000):
             continue
         t = v.split()
         r["solver"] = {"model": OUTCOME.get(int(t[0]), t[0]), "outcome": t[1] == "1", "log": t[2] == "1", "db": t[3] == "1",
-                       "calls": t[4] == "1" or not enctie.is_sync(r), "sync": enctie.is_sync(r), "side_conditions": t[6] == "1", "prefix": int(t[5]), "events": sum(1 for e in r["obs"]["dump"]["events"]
+                       "calls": t[4] == "1" or not enctie.is_sync(r), "sync": enctie.is_sync(r), "side_conditions": t[6] == "1", "born": int(t[7]), "prefix": int(t[5]), "events": sum(1 for e in r["obs"]["dump"]["events"]
                                                                                  if e == "ul" or (isinstance(e, dict) and ("a" in e or "uu" in e or "sreg" in e)))}
     return recs
 
 
 def ok(r):
     s = r.get("solver")
-    return s is None or ("error" not in s and s["outcome"] and s["log"] and s["db"] and s["calls"] and s["side_conditions"])
+    if s is None:
+        return True
+    if "error" in s or not (s["outcome"] and s["log"] and s["db"] and s["calls"] and s["side_conditions"]):
+        return False
+    # solve_sat_loses_no_clause exempts the clauses in the ghost set s_born; without soft requirements it must be empty when
+    # the model answers with a solution (it collects clauses born with both watched literals false since the last restart)
+    soft = bool(r["case"]["p"].get("soft"))
+    return soft or s["model"] != "sat" or s.get("born", 0) == 0
 
 
 def stats(recs):
     s = [r["solver"] for r in recs if "solver" in r and "model" in r["solver"]]
     return {"whole_runs_compared_with_solver_model": len(s), "of_which_under_a_logged_completion_order": sum(1 for x in s if not x["sync"]),
-            "trail_events_compared": sum(x["events"] for x in s)}
+            "trail_events_compared": sum(x["events"] for x in s),
+            "runs_whose_final_exempt_set_s_born_is_nonempty": sum(1 for x in s if x.get("born", 0) > 0)}
